@@ -124,13 +124,15 @@ def judge_algebra(link):
     exp = {"is_same": R.link_same(link, v),
            "is_complement": R.link_is_complement(link, v),
            "is_eql": R.link_same_edge(link, v)}
+    # symmetric; against the link itself and its complement also repeatable
+    rep = 2 if name in ("itself", "complement") else 1
     for m in ("is_same", "is_complement", "is_eql"):
-      obs = [_try(lambda: bool(getattr(x, m)(y))),
-             _try(lambda: bool(getattr(y, m)(x))),
-             _try(lambda: bool(getattr(x, m)(y))),
-             _try(lambda: bool(getattr(y, m)(x)))]
-      chk("equivalence", "{}(l, {}) both ways, twice".format(m, name),
-          [exp[m]] * 4, obs)
+      obs = []
+      for _ in range(rep):
+        obs.append(_try(lambda: bool(getattr(x, m)(y))))
+        obs.append(_try(lambda: bool(getattr(y, m)(x))))
+      chk("equivalence", "{}(l, {}) both ways{}".format(
+          m, name, ", twice" if rep == 2 else ""), [exp[m]] * (2 * rep), obs)
     chk("argument-changed", "texts after equivalence tests with " + name,
         [txt, vt], [str(x), str(y)])
   return out, None
@@ -165,7 +167,7 @@ def check_stored(g, ref_lines, chk, what):
       chk("stored-links", "{}: {}.{}".format(what, name, c), exp, obs)
 
 
-def judge_graph(link):
+def judge_graph(link, both_orders=True):
   out = []
 
   def chk(clause, field, exp, obs):
@@ -190,7 +192,8 @@ def judge_graph(link):
     if link[4] == "*" and v[4] != "*" or link[4] != "*" and v[4] == "*":
       continue
     vt = R.link_text(v)
-    for first, second in ((txt, vt), (vt, txt)):
+    for first, second in (((txt, vt), (vt, txt)) if both_orders
+                          else ((txt, vt),)):
       g = gfapy.Gfa(version="gfa1")
       for s in seg_lines(link, v):
         g.add_line(s)
@@ -503,7 +506,7 @@ def work_algebra(chunk):
     probs, _ = _guarded(judge_algebra, link)
     res["evaluations"] += 1
     res["traces"] += 1
-    res["transitions"] += 6 + 12 * (2 + len(variants(link)))
+    res["transitions"] += 6 + 24 + 6 * len(variants(link))
     comp = R.link_complement(link)
     res["states"].add(h(["alg", R.link_text(comp)]))
     if R.cigar_complement(link[4]) != link[4]:
@@ -519,7 +522,10 @@ def work_graph(chunk):
   res = new_result()
   for link in chunk:
     link = tuple(link)
-    r = _guarded(judge_graph, link)
+    # the different link arriving first is exercised for overlaps of <= 2
+    # operations only (cost)
+    r = _guarded(judge_graph, link,
+                 link[4] == "*" or len(R.cigar_parse(link[4])) <= 2)
     probs, states = r
     res["evaluations"] += 1
     res["traces"] += 1
@@ -729,7 +735,7 @@ def replay(w, ctx):
     return mk("algebra", link, _guarded(judge_algebra, link)[0], w)
   if mode == "graph":
     link = tuple(w["link"])
-    probs, _ = _guarded(judge_graph, link)
+    probs, _ = _guarded(judge_graph, link, True)
     return mk("graph", link, probs, w,
               extra=seg_lines(link) + [R.link_text(link), R.link_text(
                   R.link_complement(link))])
